@@ -191,6 +191,8 @@ impl vstd::std_specs::cmp::PartialEqSpecImpl for GroupKind {
 impl UpdateLeadingTrivia for LocalAssignment {
     open spec fn same_sem(&self, r: &Self) -> bool { la_core(*r) == la_core(*self) }
     open spec fn lead_ok(&self, t: FormatTriviaType, r: &Self) -> bool { true }
+    open spec fn on_new_line(&self) -> bool { other_nl(*self) }
+    open spec fn rest_same(&self, r: &Self) -> bool { true }
     #[verifier::external_body] fn update_leading_trivia(&self, leading_trivia: FormatTriviaType) -> (r: Self) { unimplemented!() }
 }
 pub assume_specification [Ast::nodes] (a: &Ast) -> (r: &Block) ensures *r == ast_nodes(*a);
